@@ -16,3 +16,19 @@ func (this *Conn) verifDialOptions() []grpc.DialOption {
 	}
 	return VerifDialOptions(this)
 }
+
+// VerifNodes is Nodes() for the simulator's driver: it never blocks. The driver
+// looks at instants at which every goroutine of the system is blocked and must
+// not queue up behind a lock that the system under test holds for ever (ok is
+// false then: that is something to be observed, not to hang on).
+func (this *Conn) VerifNodes() (nodes map[uint64]string, ok bool) {
+	if !this.addressesMu.TryRLock() {
+		return nil, false
+	}
+	defer this.addressesMu.RUnlock()
+	nodes = make(map[uint64]string)
+	for nodeId, address := range this.addresses {
+		nodes[nodeId] = address
+	}
+	return nodes, true
+}
